@@ -40,6 +40,7 @@ macro_rules! kproof_vp {
     ($(#[$m:meta])* fn $name:ident() $body:block) => {
         kproof! {
             #[kani::stub(std::vec::Vec::push, crate::verif_common::stub_vec_push_any)]
+            #[kani::stub(std::vec::Vec::reserve, crate::verif_common::stub_vec_reserve_concrete)]
             $(#[$m])*
             fn $name() $body
         }
@@ -69,6 +70,17 @@ pub fn stub_vec_push_split<T, A: core::alloc::Allocator>(v: &mut Vec<T, A>, valu
         }
         v.set_len(len + 1);
     }
+}
+
+/// `Vec::reserve` with a CONCRETE allocation size for small requests: reserve(n) only promises "at least n more", so
+/// asking for 16 when n <= 16 is equivalent for every caller that does not read capacity().  A symbolic n (stored block
+/// length decoded from the corrections) otherwise creates a heap object of symbolic size, on which CBMC's pointer
+/// analysis gave path-dependent spurious "pointer invalid / deallocated" failures (k02e_stored_mirror, DESIGN 6).
+pub fn stub_vec_reserve_concrete<T, A: core::alloc::Allocator>(v: &mut Vec<T, A>, additional: usize) {
+    if v.capacity() - v.len() >= additional {
+        return;
+    }
+    if additional <= 16 { v.reserve_exact(16); } else { v.reserve_exact(additional); }
 }
 
 /// General form of the above: equivalent to `Vec::push` in every state (grows when full), case-splitting on the first 16
